@@ -30,6 +30,7 @@
 #include <algorithm>
 #include <cassert>
 #include <new>
+#include <functional>
 #include <iterator>
 #include <stdexcept>
 
@@ -382,6 +383,19 @@ public:
     {
         invariants();
 
+        if (isElement(theData))
+        {
+            // theData refers to an element of this vector, which
+            // is about to move: insert a copy of it instead.
+            ThisType    theCopy(*m_memoryManager, 1);
+
+            theCopy.push_back(theData);
+
+            insert(thePosition, theCount, theCopy.back());
+
+            return;
+        }
+
         const size_type     theTotalSize = size() + theCount;
 
         // Needs to be optimized
@@ -564,6 +578,18 @@ public:
         if (m_size > theSize)
         {
             shrinkToSize(theSize);
+        }
+        else if (m_size < theSize && isElement(theValue))
+        {
+            // theValue refers to an element of this vector, and
+            // the buffer may be re-allocated: use a copy of it.
+            ThisType    theCopy(*m_memoryManager, 1);
+
+            theCopy.push_back(theValue);
+
+            resize(theSize, theCopy.back());
+
+            return;
         }
         else if (m_size < theSize)
         {
@@ -875,6 +901,17 @@ private:
         assert(
             (m_data == 0 && m_allocation == 0) ||
             (m_data != 0 && m_allocation != 0));
+    }
+
+    // true if theValue is stored in this vector's buffer
+    bool
+    isElement(const value_type&     theValue) const
+    {
+        const value_type* const     thePointer = &theValue;
+
+        return m_size != 0 &&
+               std::less<const value_type*>()(thePointer, m_data) == false &&
+               std::less<const value_type*>()(thePointer, m_data + m_size) == true;
     }
 
     size_type
